@@ -16,6 +16,11 @@ REGIMES = [
     ("underdamped", dict(m=m, b=b, k=k), {m: 2, b: R(3, 10), k: 5, h: R(1, 10)}, False),
     ("overdamped", dict(m=m, b=b, k=k), {m: 2, b: 9, k: 5, h: R(1, 10)}, False),
     ("critical (b = 2 sqrt(k m))", dict(m=m, b=2 * sp.sqrt(k * m), k=k), {m: 2, k: 5, h: R(1, 10)}, False),
+    # near critical damping (1 - zeta^2 = +-1e-6 and +-3e-8; the documented band in which the critical formulas are used is |1 - zeta^2| < 1e-8)
+    ("underdamped, 1-zeta^2 = 1e-6", dict(m=m, b=b, k=k), {m: 1, b: 2 * (1 - R(5, 10 ** 7)), k: 1, h: R(1, 10)}, False),
+    ("underdamped, 1-zeta^2 = 3e-8", dict(m=m, b=b, k=k), {m: 1, b: 2 * (1 - R(15, 10 ** 9)), k: 1, h: R(1, 10)}, False),
+    ("overdamped, 1-zeta^2 = -1e-6", dict(m=m, b=b, k=k), {m: 1, b: 2 * (1 + R(5, 10 ** 7)), k: 1, h: R(1, 10)}, False),
+    ("overdamped, 1-zeta^2 = -3e-8", dict(m=m, b=b, k=k), {m: 1, b: 2 * (1 + R(15, 10 ** 9)), k: 1, h: R(1, 10)}, False),
     ("rigid (k = b = 0)", dict(m=m, b=0, k=0), {m: 2, h: R(1, 10)}, False),
     ("rigid, damped (k = 0)", dict(m=m, b=b, k=0), {m: 2, b: 3, h: R(1, 10)}, False),
     ("rigid, lightly damped: velocity formulas only", dict(m=m, b=b, k=0), {m: 2, b: R(1, 1000), h: R(1, 10)}, True),
@@ -26,7 +31,7 @@ REGIMES = [
 
 
 def coef_items(util):
-    items, paths = [], {}
+    items, paths, seen = [], {}, {}
     for name, inp, wit, vo in REGIMES:
         reg = alg.Regime(name, wit)
         with alg.Shimmed(util, reg):
@@ -34,6 +39,11 @@ def coef_items(util):
             co = util.get_su_coef(mm, alg.sym_array([inp["b"]]), alg.sym_array([inp["k"]]), alg.S(h))
         paths[name] = reg.path
         d = {n: alg.expr_of(getattr(co, n)[0]) for n in ("F", "G", "A", "B", "Fp", "Gp", "Ap", "Bp")}
+        key = (str(inp["m"]), str(inp["b"]), str(inp["k"]), vo, tuple(sorted((n_, str(e_)) for n_, e_ in d.items())))
+        if key in seen:
+            paths[name] = dict(path=reg.path, note="same branches and terms as regime '%s': covered by its obligations" % seen[key])
+            continue
+        seen[key] = name
         for lab, e in OC.lemmas(d, 1 if inp["m"] is None else inp["m"], inp["b"], inp["k"], vo):
             items.append(("get_su_coef[%s]::%s" % (name, lab), e, UTIL, "post"))
     # residual-flexibility rows: static solution k q = force at the new sample
@@ -76,7 +86,8 @@ def e2e_case(args):
 
 def _e2e_case(args):
     """real SolveUnc (uncoupled path) on a symbolic 3-mode system [rb, elastic, rf], nt = 3"""
-    order, mform, rbgiven, ic = args
+    order, mform, rbgiven, ic = args[:4]
+    heavy = len(args) > 4 and args[4] == "heavy"      # a heavy, soft elastic mode: |k| >= 0.005 (elastic by the documented rule) although k/m < 0.005
     t0 = time.time()
     su = alg.load_module(report.REPO, SU)
     util = alg.load_module(report.REPO, UTIL)
@@ -92,6 +103,8 @@ def _e2e_case(args):
         wit.update({ms[i]: 2 + i, bs[i]: R(3, 10), ks[i]: 5 + i, d0s[i]: i + 1, v0s[i]: 2 - i})
     for i in range(9):
         wit[f[i]] = i - 4
+    if heavy:
+        wit.update({ms[1]: 4000, ks[1]: 3})
     reg = alg.Regime("e2e", wit)
     mv = [1, 1, 1] if mform == "none" else list(ms)
     bv = [0, bs[1], bs[2]]
@@ -341,13 +354,14 @@ def run(tier, seed):
     vs2 = pipeline.verify_jobs(run, [dict(contract=SL.inner_loop(o), source=src, lang="python", tag="_solve_real_unc_inner_loop[order=%d]" % o)
                                      for o in (1, 0)], cross=(tier == "thorough"))
     cases = [(o, mf, rg, ic) for o in (1, 0) for mf in ("vector", "none", "matrix") for rg in (True, False) for ic in ("zero", "d0v0", "static", "static+v0")]
+    cases += [(1, "vector", False, "zero", "heavy"), (0, "matrix", False, "d0v0", "heavy"), (1, "matrix", True, "static", "heavy")]
     outs = report.pool().map(e2e_case, cases, chunksize=1)
     nev, fails, und = 0, [], 0
     for args, res, secs in outs:
         for lab, st, det in res:
             nev += 1
             if st == "failed":
-                fails.append(dict(case=dict(order=args[0], m=args[1], rb_given=args[2], ic=args[3]), item=lab, detail=det))
+                fails.append(dict(case=dict(order=args[0], m=args[1], rb_given=args[2], ic=args[3], heavy_soft_mode=len(args) > 4), item=lab, detail=det))
             elif st == "undecided":
                 run.undecided.append("bounded e2e %s %s: %s" % (args, lab, det))
     run.bounded.append(dict(name="real SolveUnc (uncoupled path) on a symbolic 3-mode system [rigid, elastic, residual-flexibility], nt=3: initial "
